@@ -1056,7 +1056,12 @@ impl SparqlTranslator {
                     distinct,
                     expression,
                 } => (
-                    AggregateFunction::Count,
+                    // COUNT(?x) counts the solutions in which ?x is bound; COUNT(*) counts all
+                    if expression.is_some() {
+                        AggregateFunction::CountNonNull
+                    } else {
+                        AggregateFunction::Count
+                    },
                     expression.as_ref().map(|e| e.as_ref()),
                     *distinct,
                 ),
